@@ -9,7 +9,8 @@ Strs == {[tid |-> "mix", sid |-> "mix", pid |-> "80", name |-> n, val |-> v, dur
           n \in StrClass, v \in StrClass, d \in DurClass, np \in {0, 2, 3}, ne \in {0, 1, 3}, dk \in BOOLEAN}
 Singles == {<<r>> : r \in Ids \cup Strs}
 Small == [tid |-> "mix", sid |-> "mix", pid |-> "mix", name |-> "ascii", val |-> "utf8", dur |-> "ms", props |-> 2, events |-> 1, dupkey |-> FALSE]
-Many == {[i \in 1..n |-> Small] : n \in {0, 2, 7, 40, 200}}
+\* (513 and 1030: one more than, and not a multiple of, the batch sizes exporters like to cut at)
+Many == {[i \in 1..n |-> Small] : n \in {0, 2, 7, 40, 200, 513, 1030}}
 ASSUME \A c \in Singles \cup Many : PrintT(<<"CASE", ToJson([recs |-> c])>>)
 VARIABLE x
 Init == x = 0
